@@ -1,7 +1,25 @@
 package main
 
+import "go/types"
+
 func registerMoreIntrinsics(e *Engine) {
 	in := e.intrinsics
+	// context.WithValue without the reflectlite comparability check
+	in["context.WithValue"] = func(fr *frame, args []value) value {
+		r := fr.r
+		parent := args[0].(iface)
+		if parent.t == nil {
+			r.targetPanicStr(fr, "cannot create context from nil parent")
+		}
+		key := args[1].(iface)
+		if key.t == nil {
+			r.targetPanicStr(fr, "nil key")
+		}
+		t := r.eng.namedType("context", "valueCtx")
+		cell := new(value)
+		*cell = structure{parent, key, args[2]}
+		return iface{t: types.NewPointer(t), v: cell}
+	}
 	nop := func(fr *frame, args []value) value { return nil }
 	for _, p := range []string{"github.com/gogo/protobuf/proto", "github.com/golang/protobuf/proto"} {
 		for _, f := range []string{"RegisterEnum", "RegisterType", "RegisterFile", "RegisterMapType", "RegisterExtension", "RegisterCustomType"} {
